@@ -475,15 +475,21 @@ class ExcFlow(object):
                 len(call.args) == 1:
             return ['StopIteration']
         if nm == 'getattr' and isinstance(call.func, ast.Name) and \
-                len(call.args) == 2 and isinstance(call.args[1], ast.Name) \
-                and call.args[1].id in f.params():
-            # attribute named by a value handed in (request data), unless a
-            # membership test of that name dominates the call
+                len(call.args) == 2 and (
+                    isinstance(call.args[1], ast.Name) and
+                    call.args[1].id in f.params() or
+                    isinstance(call.args[1], ast.Attribute) and
+                    call.args[1].attr in ('text', 'tag', 'tail') and
+                    isinstance(call.args[1].value, ast.Name) and
+                    call.args[1].value.id in f.params()):
+            # attribute named by a value handed in (request data: a parameter
+            # or the text of a document node), unless a membership test of
+            # that name dominates the call
             from .flow import guards_at, flatten_guards
-            nm2 = call.args[1].id
+            nm2 = ast.unparse(call.args[1])
             for e, pol in flatten_guards(guards_at(call, stop=f.node)):
                 if isinstance(e, ast.Compare) and len(e.ops) == 1 and \
-                        isinstance(e.left, ast.Name) and e.left.id == nm2:
+                        ast.unparse(e.left) == nm2:
                     if (isinstance(e.ops[0], ast.In) and pol) or (
                             isinstance(e.ops[0], ast.NotIn) and not pol):
                         return []
